@@ -15,7 +15,7 @@ for p in props:
     units = glob.glob(os.path.join(VERIF, "units", pid, "*.c"))
     mp = os.path.join(VERIF, "units", pid, "meta.json")
     meta = json.load(open(mp)) if os.path.exists(mp) else {}
-    if not units or not meta.get("claim", True):
+    if not units or not meta.get("claim", False):
         na.append({"property_id": pid, "reason": not_claimed.get(pid, "no contract within reach built yet; see DESIGN.md section 3")})
         continue
     level = meta.get("level", "other")
